@@ -132,8 +132,10 @@ JFail == [ok |-> FALSE, v |-> Undef, p |-> 0]
 JOk(v, p) == [ok |-> TRUE, v |-> v, p |-> p]
 RECURSIVE JSkipWs(_, _)
 JSkipWs(t, p0) == LET p == p0 IN IF p <= Len(t) /\ t[p] \in JsonWs THEN JSkipWs(t, p + 1) ELSE p
-RECURSIVE JDigitsEnd(_, _)
-JDigitsEnd(t, p0) == LET p == p0 IN IF p <= Len(t) /\ JIsDigit(t[p]) THEN JDigitsEnd(t, p + 1) ELSE p
+\* first position at or after p0 that holds no digit (no recursion: digit runs of 300 and more units, family nt of C19;
+\* TLC tries the candidates of the interval in ascending order, the answer is unique anyway)
+JDigitsEnd(t, p0) == LET p == p0 IN
+  CHOOSE j \in p..(Max(p, Len(t) + 1)) : (j > Len(t) \/ ~JIsDigit(t[j])) /\ \A x \in p..(j - 1) : JIsDigit(t[x])
 
 JEscUnit(e) == CASE e = 34 -> 34 [] e = 92 -> 92 [] e = 47 -> 47 [] e = 98 -> 8 [] e = 102 -> 12
                  [] e = 110 -> 10 [] e = 114 -> 13 [] e = 116 -> 9 [] OTHER -> -1
